@@ -84,9 +84,18 @@ def run(ctx):
             raise AnalysisError("anchor SchemaValidator.%s vanished" % nm)
         tables[nm] = table_functions(prog, sv.attrs[nm], mod, sv)
     rv = None
-    for n_ in walk_no_nested(grv.node):
+    for n_ in ast.walk(grv.node):
+        # the table is a dict display in the method, or a module/class constant the method reads
+        cand = None
         if isinstance(n_, ast.Assign) and isinstance(n_.value, ast.Dict):
-            rv = table_functions(prog, n_.value, mod, sv)
+            cand = n_.value
+        elif isinstance(n_, ast.Name) and isinstance(n_.ctx, ast.Load) and isinstance(mod.assigns.get(n_.id), ast.Dict):
+            cand = mod.assigns[n_.id]
+        elif isinstance(n_, ast.Attribute) and isinstance(n_.value, ast.Name) and n_.value.id in ("self", "cls", sv.name) \
+                and isinstance(sv.attrs.get(n_.attr), ast.Dict):
+            cand = sv.attrs[n_.attr]
+        if cand is not None:
+            rv = table_functions(prog, cand, mod, sv)
     if rv is None:
         raise AnalysisError("anchor: range validator table not found in _get_range_validators")
     tables["range_validators"] = rv
@@ -356,8 +365,22 @@ def run(ctx):
     ctx.saw(cfun)
     v10 = view(ctx, cfun)
     fvars = set()
+
+    def _is_float_conv(e, f, depth=0):
+        # float(...) itself, or a repository helper one of whose returns is such a conversion
+        if not isinstance(e, ast.Call):
+            return False
+        if call_name(e) == "float" and isinstance(e.func, ast.Name):
+            return True
+        if depth < 2:
+            for k, t in cg.resolve_call(e, f):
+                if k == "precise" and any(isinstance(r_, ast.Return) and r_.value is not None and
+                                          _is_float_conv(r_.value, t, depth + 1) for r_ in walk_no_nested(t.node)):
+                    ctx.saw(t)
+                    return True
+        return False
     for a in walk_no_nested(cfun.node):
-        if isinstance(a, ast.Assign) and isinstance(a.value, ast.Call) and call_name(a.value) == "float":
+        if isinstance(a, ast.Assign) and _is_float_conv(a.value, cfun):
             fvars |= {t.id for t in a.targets if isinstance(t, ast.Name)}
     emits = [(n_, c) for (n_, c) in v10.calls(lambda c: call_name(c) == "format_error" and "CONVERSION_FACTOR" in norm(c))]
     ctx.floor("R14.10", "float conversions in conversion_factor", len(fvars), 1)
@@ -380,11 +403,13 @@ def run(ctx):
     if cic is None:
         raise AnalysisError("anchor SchemaValidator.check_invalid_chars vanished")
     slot = set()
-    for a in walk_no_nested(cic.node):
-        if isinstance(a, ast.Assign):
-            vals = a.value.values if isinstance(a.value, ast.Dict) else [a.value]
-            for e in vals:
-                r = prog.resolve_expr(e, cic.module, sv) if isinstance(e, (ast.Name, ast.Attribute)) else None
+    # functions used as values (not called in place) by the pass or by the class helpers it calls
+    scope_cic = [cic] + [f for f in cg.reachable([cic], STRONG_KINDS) if f.cls is sv and f is not cic]
+    for fn in scope_cic:
+        called_here = {id(c.func) for c in ast.walk(fn.node) if isinstance(c, ast.Call)}
+        for e in ast.walk(fn.node):
+            if isinstance(e, (ast.Name, ast.Attribute)) and isinstance(e.ctx, ast.Load) and id(e) not in called_here:
+                r = prog.resolve_expr(e, fn.module, sv)
                 if isinstance(r, FunctionInfo):
                     slot.add(r)
     ctx.floor("R14.11", "validators placed in the character pass", len(slot), 5)
@@ -422,6 +447,26 @@ def run(ctx):
                     ctx.violation("R14.12", tdc.qualname, cond.ast, loc(tdc, cond.ast),
                                   "with deprecatedFrom equal to the schema's own (known) version the test does not reach the report: only "
                                   "a strictly newer version is refused, although a tag cannot be deprecated from the version that is being released")
+        # the version test handed to a predicate helper: its returns that compare versions, read with the polarity of the call
+        for cond in v12.conds(lambda t: any(isinstance(x, ast.Call) for x in ast.walk(t))):
+            for lab in (True, False):
+                if not v12.edge_guards(cond, lab, n_):
+                    continue
+                for call_, need in _forced_calls(cond.ast, lab):
+                    for h in [h for (k, h) in cg.resolve_call(call_, tdc) if k == "precise"]:
+                        for r_ in walk_no_nested(h.node):
+                            if isinstance(r_, ast.Return) and r_.value is not None and \
+                                    any(isinstance(x, ast.Call) and call_name(x) == "Version" for x in ast.walk(r_.value)):
+                                ctx.saw(h)
+                                out = _equal_version_outcomes(r_.value)
+                                if out == {need}:
+                                    decided += 1
+                                    ctx.ok("R14.12", "equal versions make %s answer %s, the reporting edge" % (h.short, need), loc(h, r_))
+                                elif out == {not need}:
+                                    decided += 1
+                                    ctx.violation("R14.12", h.qualname, r_.value, loc(h, r_),
+                                                  "with deprecatedFrom equal to the schema's own (known) version the test does not reach the report: only "
+                                                  "a strictly newer version is refused, although a tag cannot be deprecated from the version that is being released")
     ctx.floor("R14.12", "decidable version tests guarding the report", decided, 1)
 
     # ---------------- R14.13: the unknown-attribute report depends on nothing but the entry's unknown attributes
@@ -523,7 +568,16 @@ def run(ctx):
                for t in a.targets if isinstance(t, ast.Name)}
     ctx.floor("R14.17", "item lookups through the schema in item_exists_check", len(lookups), 1)
     from sa.null import nonnull_labels as _nnl
-    missing = [c for c in v17.conds(lambda t: any(_nnl(t, nm) for nm in lookups) and not isinstance(t, ast.BoolOp))]
+
+    def _is_lookup_test(t):
+        if isinstance(t, ast.BoolOp):
+            return False
+        for nm in {x.id for x in ast.walk(t) if isinstance(x, ast.Name)}:
+            if _nnl(t, nm) and (nm in lookups or _dep(rd17, ast.Name(id=nm, ctx=ast.Load()), t, lambda y: isinstance(y, ast.Call) and any(
+                    isinstance(z, ast.Name) and z.id == sp17 for z in ast.walk(y)))):
+                return True
+        return False
+    missing = [c for c in v17.conds(_is_lookup_test)]
     ctx.floor("R14.17", "'item not found' tests", len(missing), 1)
     entry_par = iec.params()[1]
     for c in missing:
@@ -617,6 +671,17 @@ def _nan_outcomes(test, fvars):
             if cn == "isinstance" and "float" in norm(test.args[1]):
                 return {True}
     return both
+
+
+def _forced_calls(test, lab):
+    """Calls whose truth value is forced when `test` evaluates to `lab`: -> [(call, forced value)]"""
+    if isinstance(test, ast.UnaryOp) and isinstance(test.op, ast.Not):
+        return _forced_calls(test.operand, not lab)
+    if isinstance(test, ast.BoolOp) and isinstance(test.op, ast.And if lab else ast.Or):
+        return [p for v in test.values for p in _forced_calls(v, lab)]
+    if isinstance(test, ast.Call):
+        return [(test, lab)]
+    return []
 
 
 def _equal_version_outcomes(test):
